@@ -268,15 +268,32 @@ class Budget(RuleAnalysis):
                 return [("fresh", frozenset())]
             return [fact]
         if isinstance(node, ast.Yield) and self._mentions(node.value):
+            if self._recomputed_inline(node, node.value, state, cov):
+                return [fact]
             self._use(node, state, "yielded as the remaining budget")
             return [fact]
         if isinstance(node, ast.Return) and node.value is not None:
             v = node.value
             elts = v.elts if isinstance(v, ast.Tuple) else [v]
+            if any(self._recomputed_inline(node, x, state, cov) for x in elts):
+                return [fact]
             if any(self._is_target(x) for x in elts):
                 self._use(node, state, "returned as the remaining budget")
             return [fact]
         return [fact]
+
+    def _recomputed_inline(self, node, v, state, cov) -> bool:
+        """`yield timer.recompute_timeout(timeout)` / `return x, timer.recompute_timeout(timeout)`: the remaining budget is computed in
+        the expression that hands it on (same obligations as `timeout = timer.recompute_timeout(timeout)` followed by `yield timeout`)"""
+        while isinstance(v, ast.Call) and _cname(v) in ("max", "min", "float") and v.args:
+            v = next((a for a in v.args if isinstance(a, ast.Call)), v.args[0])
+        if not (isinstance(v, ast.Call) and _cname(v) == "recompute_timeout" and any(self._mentions(a) for a in v.args)):
+            return False
+        timer = dotted(v.func.value) if isinstance(v.func, ast.Attribute) else None
+        self.recomputes.append(node)
+        if state == "stale" and timer not in cov:
+            self.viol.append(("C11.cycle", node, f"the budget is re-computed with timer `{timer}` which did not measure every blocking call made since it was last fresh"))
+        return True
 
     def branch(self, test, fact):
         state, cov, flags = fact
